@@ -28,9 +28,73 @@ theorem readCache_doc {b : Str} {d : Json.ReportData} {cb : Codebase.Codebase}
   rw [hfiles] at hr
   simp only [readCache, hp, hr, hcb]
 
+/-! ## the cache lemmas of `Lemmas/Cache.lean`, relativised to a set `U` of contents
+
+`Cache.HonestRows` says that every cached row is the analysis of SOME content with the recorded
+checksum; the collision-freeness of the checksum is then needed between that content and the
+current content of the file.  Recording that the content comes from `U` lets the hypothesis on the
+checksum be restricted to `U`. -/
+
+section Generic
+variable {Path Content Hash Entry Excl Version : Type}
+variable [DecidableEq Path] [DecidableEq Hash] [DecidableEq Version]
+variable (P : Cache.Params Path Content Hash Entry Excl Version)
+
+/-- every row is the analysis of some content FROM `U` with that checksum, stored under its own path -/
+def HonestRowsOn (U : Content → Prop) (es : List (Path × Hash × Entry)) : Prop :=
+  ∀ r ∈ es, ∃ c : Content, U c ∧ r.2.1 = P.hash c ∧ r.2.2 = P.analyze r.1 c
+
+omit [DecidableEq Path] [DecidableEq Hash] [DecidableEq Version] in
+theorem HonestRowsOn.honest {U : Content → Prop} {es : List (Path × Hash × Entry)}
+    (h : HonestRowsOn P U es) : Cache.HonestRows P es := by
+  intro r hr
+  obtain ⟨c, _, h1, h2⟩ := h r hr
+  exact ⟨c, h1, h2⟩
+
+/-- with cached rows honest on `U`, a file whose content is in `U` and a checksum without collision
+on `U`, the row equals the freshly analysed one -/
+theorem scanFile_eq_fresh_on {U : Content → Prop}
+    (hinj : ∀ c c', U c → U c' → P.hash c = P.hash c' → c = c')
+    {cached : Option (List (Path × Hash × Entry))}
+    (hc : ∀ es, cached = some es → HonestRowsOn P U es) (f : Path × Content) (hf : U f.2) :
+    (Cache.scanFile P cached f).1 = (Cache.scanFile P none f).1 := by
+  by_cases h : (Cache.scanFile P cached f).2 = .reused
+  · obtain ⟨es, e, hes, hl, hr⟩ := (Cache.scanFile_reused_iff P).1 h
+    obtain ⟨c, hcU, h1, h2⟩ := hc es hes _ (Cache.lookupLast_mem hl)
+    simp only at h1 h2
+    have : f.2 = c := hinj _ _ hf hcU h1
+    subst this
+    rw [hr, h2]; rfl
+  · rw [Cache.scanFile_analysed_row P h]; rfl
+
+/-- ... and every produced row is honest on `U` (no hypothesis on the checksum) -/
+theorem scanFile_honestRow_on {U : Content → Prop} {cached : Option (List (Path × Hash × Entry))}
+    (hc : ∀ es, cached = some es → HonestRowsOn P U es) (f : Path × Content) (hf : U f.2) :
+    ∃ c : Content, U c ∧ (Cache.scanFile P cached f).1.2.1 = P.hash c ∧
+      (Cache.scanFile P cached f).1.2.2 = P.analyze (Cache.scanFile P cached f).1.1 c := by
+  by_cases h : (Cache.scanFile P cached f).2 = .reused
+  · obtain ⟨es, e, hes, hl, hr⟩ := (Cache.scanFile_reused_iff P).1 h
+    obtain ⟨c, hcU, h1, h2⟩ := hc es hes _ (Cache.lookupLast_mem hl)
+    simp only at h1 h2
+    exact ⟨c, hcU, by rw [hr]; exact h1, by rw [hr]; exact h2⟩
+  · exact ⟨f.2, hf, by simp [Cache.scanFile_analysed_row P h]⟩
+
+end Generic
+
 /-- the invariant of C09 for the cache file with these bytes -/
 def InvC (E : Env) (prev : Option Str) : Prop :=
   Cache.Honest (cacheParams E) (readCache prev) ∨ ¬ Cache.Usable (cacheParams E) (readCache prev)
+
+/-- the invariant of C09 with the contents recorded: if the cache file is a document, its rows are
+analyses of contents from `U` -/
+def InvCOn (E : Env) (U : Str → Prop) (prev : Option Str) : Prop :=
+  (∀ v es, readCache prev = .doc v es → HonestRowsOn (cacheParams E) U es) ∨
+    ¬ Cache.Usable (cacheParams E) (readCache prev)
+
+theorem InvCOn.inv {E : Env} {U : Str → Prop} {prev : Option Str} (h : InvCOn E U prev) : InvC E prev := by
+  rcases h with h | h
+  · exact Or.inl (fun v es he => (h v es he).honest)
+  · exact Or.inr h
 
 theorem inv_state {E : Env} {prev : Option Str} (h : InvC E prev) (pats : List Gi.Pat) (ch : List Node) :
     Cache.Inv (cacheParams E) (cacheState pats ch prev) := h
@@ -39,17 +103,62 @@ theorem not_usable_junk (E : Env) (k : Cache.JunkKind) :
     ¬ Cache.Usable (cacheParams E) (.junk k : CacheFileT) := by
   rintro ⟨es, h⟩; cases h
 
-/-- **what a scan leaves behind, cut anywhere, keeps the invariant** (C08 `valid_json`, `read_back`,
-`no_proper_prefix_parses`, `trailing_ws_prefix_parses`; C09 `report_honest`) -/
-theorem inv_of_prefix {E : Env} (hE : EnvOk E) {R : Run} (hR : RunOk R) {rn : Str} {ch : List Node}
-    (hT : TreeOk ch) {prev : Option Str} (hprev : InvC E prev) {d : Json.ReportData} {bytes p : Str}
+/-- the rows a usable cache file offers to the scan are honest on `U` -/
+theorem invOn_cached {E : Env} {U : Str → Prop} {prev : Option Str} (h : InvCOn E U prev) :
+    ∀ es, Cache.readCachedReport (cacheParams E) (readCache prev) = some es →
+      HonestRowsOn (cacheParams E) U es := by
+  intro es hes
+  have hd := (Cache.readCachedReport_eq_some (cacheParams E)).1 hes
+  rcases h with h | h
+  · exact h _ _ hd
+  · exact absurd ⟨es, hd⟩ h
+
+/-- the files the walk hands to `_scan_file` have their contents in `U` -/
+theorem walk_in {E : Env} {pats : List Gi.Pat} {ch : List Node} {U : Str → Prop} (hwf : wfDir ch = true)
+    (hS : ScannedIn E pats ch U) (prev : Option Str) :
+    ∀ f ∈ Cache.walk (cacheParams E) (cacheState pats ch prev), U f.2 := by
+  intro f hf
+  rw [walk_eq_selection E pats hwf prev] at hf
+  obtain ⟨⟨p, lang, c⟩, hx, rfl⟩ := List.mem_map.1 hf
+  exact hS p c lang (mem_selection.1 hx)
+
+/-- the rows of a scan whose cache file and scanned contents lie in `U` are honest on `U` -/
+theorem scanRows_honestOn {E : Env} {pats : List Gi.Pat} {rn : Str} {ch : List Node} {U : Str → Prop}
+    (hwf : wfDir ch = true) (hS : ScannedIn E pats ch U) {prev : Option Str} (hinv : InvCOn E U prev) :
+    HonestRowsOn (cacheParams E) U (scanRows E pats (.dir rn ch) prev) := by
+  intro r hr
+  simp only [scanRows, Cache.scan, Cache.report, Cache.scanLog, List.map_map, List.mem_map,
+    Function.comp] at hr
+  obtain ⟨f, hf, rfl⟩ := hr
+  exact scanFile_honestRow_on (cacheParams E) (invOn_cached hinv) f (walk_in hwf hS prev f hf)
+
+/-- **C09 on the instantiated model, relativised**: with a checksum that has no collision on `U`,
+a cache file honest on `U` and scanned contents in `U`, the rows of the scan are the rows of a scan
+that finds no cache file -/
+theorem scanRows_eq_fresh_on {E : Env} {pats : List Gi.Pat} {rn : Str} {ch : List Node} {U : Str → Prop}
+    (hU : CollisionFree E U) (hwf : wfDir ch = true) (hS : ScannedIn E pats ch U) {prev : Option Str}
+    (hinv : InvCOn E U prev) :
+    scanRows E pats (.dir rn ch) prev = scanRows E pats (.dir rn ch) none := by
+  simp only [scanRows, Cache.scan, Cache.report, Cache.scanLog, List.map_map]
+  have hw : Cache.walk (cacheParams E) (cacheState pats (Node.dir rn ch).children none) =
+      Cache.walk (cacheParams E) (cacheState pats (Node.dir rn ch).children prev) := rfl
+  rw [hw]
+  apply List.map_congr_left
+  intro f hf
+  exact scanFile_eq_fresh_on (cacheParams E) hU (invOn_cached hinv) f (walk_in hwf hS prev f hf)
+
+/-- **what a reader makes of the file a scan leaves behind, cut anywhere**: the document of the
+rows of that scan (the whole file, or the file minus trailing white space), or nothing a scan would
+use (C08 `valid_json`, `read_back`, `no_proper_prefix_parses`, `trailing_ws_prefix_parses`) -/
+theorem read_prefix {E : Env} (hE : EnvBase E) {R : Run} (hR : RunOk R) {rn : Str} {ch : List Node}
+    (hT : TreeOk ch) {prev : Option Str}
+    (hrows : Cache.HonestRows (cacheParams E) (scanRows E R.pats (.dir rn ch) prev))
+    {d : Json.ReportData} {bytes p : Str}
     (hs : scan E R (.dir rn ch) prev = .ok (d, bytes)) (hp : p <+: bytes) :
-    InvC E (some p) ∧
+    (readCache (some p) = .doc (some E.version) (scanRows E R.pats (.dir rn ch) prev) ∨
+      ¬ Cache.Usable (cacheParams E) (readCache (some p))) ∧
     (p = bytes → readCache (some p) = .doc (some E.version) (scanRows E R.pats (.dir rn ch) prev)) := by
   obtain ⟨files, cb, hf, hcb, rfl, rfl⟩ := scan_ok_iff.1 hs
-  have hinv := inv_state hprev R.pats ch
-  have hrows : Cache.HonestRows (cacheParams E) (scanRows E R.pats (.dir rn ch) prev) :=
-    Cache.report_honest (cacheParams E) hinv
   have hh := honestFiles_of_rows hrows hf
   have hgood := report_good hE hR hT hf hh hcb
   have hdist := report_distinct (E := E) (R := R) hT.wf hf hcb
@@ -63,15 +172,12 @@ theorem inv_of_prefix {E : Env} (hE : EnvOk E) {R : Run} (hR : RunOk R) {rn : St
     have := readCache_doc (cb := cb) hb hdist.files (by rw [hdfiles]; exact entriesOf_profiles hf)
       (by rw [hdfiles]; exact hcb)
     rw [this, hdver, hdfiles, rowsOfFiles_entriesOf hf]
-  have hhonest : Cache.Honest (cacheParams E)
-      (.doc (some E.version) (scanRows E R.pats (.dir rn ch) prev) : CacheFileT) :=
-    Cache.honest_doc_cur (cacheParams E) hrows
   obtain ⟨q, hq⟩ := hp
   constructor
   · by_cases hws : Json.AllWs q
     · have := C08.trailing_ws_prefix_parses d hgood true p q hq.symm hws
       rw [C08.toJsonDict_eq d hdist] at this
-      exact Or.inl (by unfold InvC at *; rw [hdoc p this]; exact hhonest)
+      exact Or.inl (hdoc p this)
     · have := C08.no_proper_prefix_parses d hgood true p q hq.symm hws
       refine Or.inr ?_
       simp only [readCache, this]
@@ -80,16 +186,90 @@ theorem inv_of_prefix {E : Env} (hE : EnvOk E) {R : Run} (hR : RunOk R) {rn : St
     subst hpe
     exact hdoc _ (C08.valid_json d hgood hdist).1
 
+/-- **what a scan leaves behind, cut anywhere, keeps the invariant** (C09 `report_honest`) -/
+theorem inv_of_prefix {E : Env} (hE : EnvBase E) {R : Run} (hR : RunOk R) {rn : Str} {ch : List Node}
+    (hT : TreeOk ch) {prev : Option Str} (hprev : InvC E prev) {d : Json.ReportData} {bytes p : Str}
+    (hs : scan E R (.dir rn ch) prev = .ok (d, bytes)) (hp : p <+: bytes) :
+    InvC E (some p) ∧
+    (p = bytes → readCache (some p) = .doc (some E.version) (scanRows E R.pats (.dir rn ch) prev)) := by
+  have hrows : Cache.HonestRows (cacheParams E) (scanRows E R.pats (.dir rn ch) prev) :=
+    Cache.report_honest (cacheParams E) (inv_state hprev R.pats ch)
+  obtain ⟨h1, h2⟩ := read_prefix hE hR hT hrows hs hp
+  refine ⟨?_, h2⟩
+  rcases h1 with h1 | h1
+  · exact Or.inl (by rw [h1]; exact Cache.honest_doc_cur (cacheParams E) hrows)
+  · exact Or.inr h1
+
+/-- the same with the contents recorded -/
+theorem invOn_of_prefix {E : Env} (hE : EnvBase E) {U : Str → Prop} {R : Run} (hR : RunOk R) {rn : Str}
+    {ch : List Node} (hT : TreeOk ch) (hS : ScannedIn E R.pats ch U) {prev : Option Str}
+    (hprev : InvCOn E U prev) {d : Json.ReportData} {bytes p : Str}
+    (hs : scan E R (.dir rn ch) prev = .ok (d, bytes)) (hp : p <+: bytes) : InvCOn E U (some p) := by
+  have hrows := scanRows_honestOn (rn := rn) hT.wf hS hprev
+  rcases (read_prefix hE hR hT hrows.honest hs hp).1 with h1 | h1
+  · refine Or.inl (fun v es he => ?_)
+    rw [h1] at he
+    cases he
+    exact hrows
+  · exact Or.inr h1
+
 /-- **every cache file a scan may find satisfies the invariant of C09** -/
 theorem inv_of_cacheOk {E : Env} (hE : EnvOk E) {prev : Option Str} (h : CacheOk E prev) : InvC E prev := by
   induction h with
   | missing => exact Or.inr (by rintro ⟨es, h⟩; cases h)
-  | written _ hR hT hs ih => exact (inv_of_prefix hE hR hT ih hs (List.prefix_refl _)).1
-  | cut _ hR hT hs hp ih => exact (inv_of_prefix hE hR hT ih hs hp).1
+  | written _ hR hT hs ih => exact (inv_of_prefix hE.toEnvBase hR hT ih hs (List.prefix_refl _)).1
+  | cut _ hR hT hs hp ih => exact (inv_of_prefix hE.toEnvBase hR hT ih hs hp).1
   | foreign hf =>
     refine Or.inr ?_
     rintro ⟨es, h⟩
     exact hf es h
+
+/-- ... and, with the contents recorded, the invariant on `U` -/
+theorem invOn_of_cacheOkOn {E : Env} (hE : EnvBase E) {U : Str → Prop} {prev : Option Str}
+    (h : CacheOkOn E U prev) : InvCOn E U prev := by
+  induction h with
+  | missing => exact Or.inr (by rintro ⟨es, h⟩; cases h)
+  | written _ hR hT hS hs ih => exact invOn_of_prefix hE hR hT hS ih hs (List.prefix_refl _)
+  | cut _ hR hT hS hs hp ih => exact invOn_of_prefix hE hR hT hS ih hs hp
+  | foreign hf =>
+    refine Or.inr ?_
+    rintro ⟨es, h⟩
+    exact hf es h
+
+/-- forgetting the contents -/
+theorem CacheOkOn.cacheOk {E : Env} {U : Str → Prop} {prev : Option Str} (h : CacheOkOn E U prev) :
+    CacheOk E prev := by
+  induction h with
+  | missing => exact .missing
+  | written _ hR hT _ hs ih => exact .written ih hR hT hs
+  | cut _ hR hT _ hs hp ih => exact .cut ih hR hT hs hp
+  | foreign hf => exact .foreign hf
+
+/-- `CacheOk` is `CacheOkOn` for the set of all byte strings -/
+theorem CacheOk.on {E : Env} {prev : Option Str} (h : CacheOk E prev) : CacheOkOn E (fun _ => True) prev := by
+  induction h with
+  | missing => exact .missing
+  | written _ hR hT hs ih => exact .written ih hR hT (fun _ _ _ _ => trivial) hs
+  | cut _ hR hT hs hp ih => exact .cut ih hR hT (fun _ _ _ _ => trivial) hs hp
+  | foreign hf => exact .foreign hf
+
+/-- a larger set of contents is as good -/
+theorem CacheOkOn.mono {E : Env} {U V : Str → Prop} (hUV : ∀ c, U c → V c) {prev : Option Str}
+    (h : CacheOkOn E U prev) : CacheOkOn E V prev := by
+  induction h with
+  | missing => exact .missing
+  | written _ hR hT hS hs ih => exact .written ih hR hT (fun p c l hsel => hUV c (hS p c l hsel)) hs
+  | cut _ hR hT hS hs hp ih => exact .cut ih hR hT (fun p c l hsel => hUV c (hS p c l hsel)) hs hp
+  | foreign hf => exact .foreign hf
+
+/-- the idealised hypotheses are a special case of `HistoryOk` -/
+theorem HistoryOk.of_injective {E : Env} (hE : EnvOk E) {prev : Option Str} (h : CacheOk E prev)
+    (pats : List Gi.Pat) (ch : List Node) : HistoryOk E pats ch prev :=
+  Or.inr ⟨fun _ => True, fun _ _ _ _ he => hE.md5 he, fun _ _ _ _ => trivial, h.on⟩
+
+/-- a scan that finds no cache file needs no assumption on MD5 -/
+theorem HistoryOk.fresh (E : Env) (pats : List Gi.Pat) (ch : List Node) : HistoryOk E pats ch none :=
+  Or.inl rfl
 
 /-- **C09 on the instantiated model**: the rows of a scan that finds such a cache file are the rows
 of a scan that finds none -/
@@ -106,5 +286,14 @@ theorem scan_eq_fresh {E : Env} (hE : EnvOk E) {prev : Option Str} (h : CacheOk 
     scan E R root prev = scan E R root none := by
   unfold scan
   rw [scanRows_eq_fresh hE h]
+
+/-- **C09 + C10 end to end, with MD5 collision-free only on the contents that occur** -/
+theorem scan_eq_fresh_on {E : Env} (hE : EnvBase E) {R : Run} {rn : Str} {ch : List Node}
+    (hwf : wfDir ch = true) {prev : Option Str} (hH : HistoryOk E R.pats ch prev) :
+    scan E R (.dir rn ch) prev = scan E R (.dir rn ch) none := by
+  rcases hH with rfl | ⟨U, hU, hS, hprev⟩
+  · rfl
+  · unfold scan
+    rw [scanRows_eq_fresh_on hU hwf hS (invOn_of_cacheOkOn hE hprev)]
 
 end CL.Pipeline
